@@ -21,6 +21,7 @@ def gen_arr(r, n):
                 elif t == 11: ops.append('back')
                 elif t == 12: ops.append('addback,%d' % r.below(100))
                 elif t == 13: ops.append('rmback,%d' % r.choice([0, 1, 1, 2, 5, 50]))
+                elif t == 14 and r.chance(1, 3): ops.append('insn,%d,%d,%d' % (r.choice([0, 1, 2, 4, 5, 9, 10, 41]), r.choice([0, 1, 2, 3, 7] + ([-1, -5] if kind != 'sah' else [])), r.below(100)))
                 elif t == 14: ops.append('ins,%d,%d' % (r.choice([0, 1, 2, 4, 5, 9, 10, 41, 77]), r.below(100)))
                 elif t == 15: ops.append('rm,%d,%d' % (r.choice([0, 1, 2, 4, 8, 9, 40]), r.choice([0, 1, 2, 5])))
                 elif t == 16: ops.append('clear')
@@ -134,8 +135,14 @@ def gen_boundary():
                 cases.append(kind + ' ' + ' '.join(setup + ['rmback,%d' % i]))
                 cases.append(kind + ' ' + ' '.join(setup + ['begin,0', 'adv,0,%d' % i, 'deref,0']))
                 cases.append(kind + ' ' + ' '.join(setup + ['end,0', 'adv,0,%d' % (-i if i >= 0 else 1), 'deref,0']))
-                for cnt in (0, 1, 2, -1):
+                for cnt in (0, 1, 2, -1, -2, -n, -(n + 1) if n else -3):       # negative = SIZE_MAX - k + 1: counts near SIZE_MAX
                     cases.append(kind + ' ' + ' '.join(setup + ['rm,%d,%d' % (i, cnt)]))
+                    # SegmentedArray::Insert reserves segment by segment: a huge count that does NOT trip the overflow check would
+                    # allocate until memory is exhausted -- never generated; only counts with count > SIZE_MAX - size
+                    if kind != 'sah' or cnt >= 0 or -cnt <= n:
+                        cases.append(kind + ' ' + ' '.join(setup + ['insn,%d,%d,77' % (i, cnt), 'back']))
+                if kind != 'sah':
+                    cases.append(kind + ' ' + ' '.join(setup + ['insn,%d,%d,77' % (i, 2 ** 62), 'back']))
                 if i >= 1:
                     cases.append(kind + ' ' + ' '.join(setup + ['rm,%d,%d' % (0, i)]))
                     cases.append(kind + ' ' + ' '.join(setup + ['rm,%d,%d' % (1, i - 1)]))
